@@ -19,11 +19,15 @@
                            and the value it gives writes the same literal; excluded exactly: `tzWide` and values
                            whose Layout has a ".000000000" element (class time-fraction-signed). Equality of
                            VALUES (fields) is not claimed — hence `_partial`.
-  * NOT proved (defs below; T3 + oracle only): `time_canonical_full` (same fields after re-mapping),
-    `time_complete_canonical` (completeness on canonical forms within the year range).
+  * `time_canonical`       the same with equality of FIELDS, under `n.clean` and `n.fracDropped = false` only
+                           (`time_canonical_full_holds` proves the def `time_canonical_full`).
+  * NOT proved (def below; oracle only): `time_complete_canonical` (completeness on canonical forms
+    within the year range; `time_complete_partial` covers the image of Format).
 -/
 import RdfModel.Proofs.C20Time
 import RdfModel.Proofs.C20TimeRT
+import RdfModel.Proofs.C20TimeRT2
+import RdfModel.Proofs.C20TimeRT3
 import RdfModel.Proofs.C20Collapse
 import RdfModel.Props.C20Defs
 import RdfModel.Gen.XsdFacts
@@ -540,6 +544,269 @@ example : Fields { year := 2024, month := some 2, day := some 29 } ∧ ZoneOK tr
 
 end
 
+section
+open RdfModel.Proofs.C20Time
+
+theorem canon_core2 (T : TimeTy) {l : Bytes} (hl : l ∈ expLayouts T) (hnf : noFrac l = true) {st : PS}
+    (hF : Fields st.t) (hz : ZoneOK true st.t.zone) (hfr : Frame (layoutToks l) {} st) (hfd : st.n.fracDropped = false) :
+    ∃ v' n', firstParse (expLayouts T) (timeFormat l st.t) = some (v', n') ∧ lexTime v' = timeFormat l st.t ∧ n'.clean = true ∧
+      v'.t.same st.t = true := by
+  cases T <;> simp only [expLayouts, List.mem_cons, List.not_mem_nil, or_false] at hl
+  · -- date
+    have hls : ∀ l' ∈ expLayouts .date, ∃ tl' : Tail, layoutToks l' = preD ++ tl'.toks ∨ layoutToks l' = preD ++ (.frac0 9 0x2E :: tl'.toks) := by
+      intro l' hl'; simp only [expLayouts, List.mem_cons, List.not_mem_nil, or_false] at hl'
+      rcases hl' with rfl | rfl
+      · exact ⟨.none, Or.inl tk_d1⟩
+      · exact ⟨.tz, Or.inl tk_d2⟩
+    rcases hl with rfl | rfl
+    · exact canon_of2 hls (preOK_D hF) hz (tl := .none) (by simp [expLayouts]) tk_d1 rfl (same_D (tl := .none) (by rw [tk_d1] at hfr; exact hfr) hfd)
+    · exact canon_of2 hls (preOK_D hF) hz (tl := .tz) (by simp [expLayouts]) tk_d2 rfl (same_D (tl := .tz) (by rw [tk_d2] at hfr; exact hfr) hfd)
+  · -- dateTime
+    have hls : ∀ l' ∈ expLayouts .dateTime, ∃ tl' : Tail, layoutToks l' = preDT ++ tl'.toks ∨ layoutToks l' = preDT ++ (.frac0 9 0x2E :: tl'.toks) := by
+      intro l' hl'; simp only [expLayouts, List.mem_cons, List.not_mem_nil, or_false] at hl'
+      rcases hl' with rfl | rfl | rfl | rfl
+      · exact ⟨.none, Or.inl tk_dt1⟩
+      · exact ⟨.tz, Or.inl tk_dt2⟩
+      · exact ⟨.none, Or.inr tk_dt3⟩
+      · exact ⟨.tz, Or.inr tk_dt4⟩
+    rcases hl with rfl | rfl | rfl | rfl
+    · exact canon_of2 hls (preOK_DT hF) hz (tl := .none) (by simp [expLayouts]) tk_dt1 rfl (same_DT (tl := .none) (by rw [tk_dt1] at hfr; exact hfr) hfd)
+    · exact canon_of2 hls (preOK_DT hF) hz (tl := .tz) (by simp [expLayouts]) tk_dt2 rfl (same_DT (tl := .tz) (by rw [tk_dt2] at hfr; exact hfr) hfd)
+    · exact absurd hnf (by decide)
+    · exact absurd hnf (by decide)
+  · -- dateTimeStamp
+    have hls : ∀ l' ∈ expLayouts .dateTimeStamp, ∃ tl' : Tail, layoutToks l' = preDT ++ tl'.toks ∨ layoutToks l' = preDT ++ (.frac0 9 0x2E :: tl'.toks) := by
+      intro l' hl'; simp only [expLayouts, List.mem_cons, List.not_mem_nil, or_false] at hl'
+      rcases hl' with rfl | rfl
+      · exact ⟨.tz, Or.inl tk_dt2⟩
+      · exact ⟨.tz, Or.inr tk_dt4⟩
+    rcases hl with rfl | rfl
+    · exact canon_of2 hls (preOK_DT hF) hz (tl := .tz) (by simp [expLayouts]) tk_dt2 rfl (same_DT (tl := .tz) (by rw [tk_dt2] at hfr; exact hfr) hfd)
+    · exact absurd hnf (by decide)
+  · -- gDay
+    have hls : ∀ l' ∈ expLayouts .gDay, ∃ tl' : Tail, layoutToks l' = preGD ++ tl'.toks ∨ layoutToks l' = preGD ++ (.frac0 9 0x2E :: tl'.toks) := by
+      intro l' hl'; simp only [expLayouts, List.mem_cons, List.not_mem_nil, or_false] at hl'
+      rcases hl' with rfl | rfl
+      · exact ⟨.none, Or.inl tk_gd1⟩
+      · exact ⟨.tz, Or.inl tk_gd2⟩
+    rcases hl with rfl | rfl
+    · exact canon_of2 hls (preOK_GD hF) hz (tl := .none) (by simp [expLayouts]) tk_gd1 rfl (same_GD (tl := .none) (by rw [tk_gd1] at hfr; exact hfr) hfd)
+    · exact canon_of2 hls (preOK_GD hF) hz (tl := .tz) (by simp [expLayouts]) tk_gd2 rfl (same_GD (tl := .tz) (by rw [tk_gd2] at hfr; exact hfr) hfd)
+  · -- gMonth
+    have hls : ∀ l' ∈ expLayouts .gMonth, ∃ tl' : Tail, layoutToks l' = preGM ++ tl'.toks ∨ layoutToks l' = preGM ++ (.frac0 9 0x2E :: tl'.toks) := by
+      intro l' hl'; simp only [expLayouts, List.mem_cons, List.not_mem_nil, or_false] at hl'
+      rcases hl' with rfl | rfl
+      · exact ⟨.none, Or.inl tk_gm1⟩
+      · exact ⟨.tz, Or.inl tk_gm2⟩
+    rcases hl with rfl | rfl
+    · exact canon_of2 hls (preOK_GM hF) hz (tl := .none) (by simp [expLayouts]) tk_gm1 rfl (same_GM (tl := .none) (by rw [tk_gm1] at hfr; exact hfr) hfd)
+    · exact canon_of2 hls (preOK_GM hF) hz (tl := .tz) (by simp [expLayouts]) tk_gm2 rfl (same_GM (tl := .tz) (by rw [tk_gm2] at hfr; exact hfr) hfd)
+  · -- gMonthDay
+    have hls : ∀ l' ∈ expLayouts .gMonthDay, ∃ tl' : Tail, layoutToks l' = preGMD ++ tl'.toks ∨ layoutToks l' = preGMD ++ (.frac0 9 0x2E :: tl'.toks) := by
+      intro l' hl'; simp only [expLayouts, List.mem_cons, List.not_mem_nil, or_false] at hl'
+      rcases hl' with rfl | rfl
+      · exact ⟨.none, Or.inl tk_gmd1⟩
+      · exact ⟨.tz, Or.inl tk_gmd2⟩
+    rcases hl with rfl | rfl
+    · exact canon_of2 hls (preOK_GMD hF) hz (tl := .none) (by simp [expLayouts]) tk_gmd1 rfl (same_GMD (tl := .none) (by rw [tk_gmd1] at hfr; exact hfr) hfd)
+    · exact canon_of2 hls (preOK_GMD hF) hz (tl := .tz) (by simp [expLayouts]) tk_gmd2 rfl (same_GMD (tl := .tz) (by rw [tk_gmd2] at hfr; exact hfr) hfd)
+  · -- gYear
+    have hls : ∀ l' ∈ expLayouts .gYear, ∃ tl' : Tail, layoutToks l' = preGY ++ tl'.toks ∨ layoutToks l' = preGY ++ (.frac0 9 0x2E :: tl'.toks) := by
+      intro l' hl'; simp only [expLayouts, List.mem_cons, List.not_mem_nil, or_false] at hl'
+      rcases hl' with rfl | rfl
+      · exact ⟨.none, Or.inl tk_gy1⟩
+      · exact ⟨.tz, Or.inl tk_gy2⟩
+    rcases hl with rfl | rfl
+    · exact canon_of2 hls (preOK_GY hF) hz (tl := .none) (by simp [expLayouts]) tk_gy1 rfl (same_GY (tl := .none) (by rw [tk_gy1] at hfr; exact hfr) hfd)
+    · exact canon_of2 hls (preOK_GY hF) hz (tl := .tz) (by simp [expLayouts]) tk_gy2 rfl (same_GY (tl := .tz) (by rw [tk_gy2] at hfr; exact hfr) hfd)
+  · -- gYearMonth
+    have hls : ∀ l' ∈ expLayouts .gYearMonth, ∃ tl' : Tail, layoutToks l' = preGYM ++ tl'.toks ∨ layoutToks l' = preGYM ++ (.frac0 9 0x2E :: tl'.toks) := by
+      intro l' hl'; simp only [expLayouts, List.mem_cons, List.not_mem_nil, or_false] at hl'
+      rcases hl' with rfl | rfl
+      · exact ⟨.none, Or.inl tk_gym1⟩
+      · exact ⟨.tz, Or.inl tk_gym2⟩
+    rcases hl with rfl | rfl
+    · exact canon_of2 hls (preOK_GYM hF) hz (tl := .none) (by simp [expLayouts]) tk_gym1 rfl (same_GYM (tl := .none) (by rw [tk_gym1] at hfr; exact hfr) hfd)
+    · exact canon_of2 hls (preOK_GYM hF) hz (tl := .tz) (by simp [expLayouts]) tk_gym2 rfl (same_GYM (tl := .tz) (by rw [tk_gym2] at hfr; exact hfr) hfd)
+  · -- time
+    have hls : ∀ l' ∈ expLayouts .time, ∃ tl' : Tail, layoutToks l' = preC ++ tl'.toks ∨ layoutToks l' = preC ++ (.frac0 9 0x2E :: tl'.toks) := by
+      intro l' hl'; simp only [expLayouts, List.mem_cons, List.not_mem_nil, or_false] at hl'
+      rcases hl' with rfl | rfl | rfl | rfl | rfl | rfl
+      · exact ⟨.none, Or.inl tk_t1⟩
+      · exact ⟨.none, Or.inr tk_t2⟩
+      · exact ⟨.z, Or.inl tk_t3⟩
+      · exact ⟨.z, Or.inr tk_t4⟩
+      · exact ⟨.tz, Or.inl tk_t5⟩
+      · exact ⟨.tz, Or.inr tk_t6⟩
+    rcases hl with rfl | rfl | rfl | rfl | rfl | rfl
+    · exact canon_of2 hls (preOK_C hF) hz (tl := .none) (by simp [expLayouts]) tk_t1 rfl (same_C (tl := .none) (by rw [tk_t1] at hfr; exact hfr) hfd)
+    · exact absurd hnf (by decide)
+    · exact canon_of2 hls (preOK_C hF) hz (tl := .z) (by simp [expLayouts]) tk_t3 rfl (same_C (tl := .z) (by rw [tk_t3] at hfr; exact hfr) hfd)
+    · exact absurd hnf (by decide)
+    · exact canon_of2 hls (preOK_C hF) hz (tl := .tz) (by simp [expLayouts]) tk_t5 rfl (same_C (tl := .tz) (by rw [tk_t5] at hfr; exact hfr) hfd)
+    · exact absurd hnf (by decide)
+
+
+/-- Same-value part of the canonicalisation clause. For every T and every s that Map<T> accepts with
+    value v: the literal written (`lexTime v`) is a lexical form of T, Map<T> accepts it, and the value
+    obtained has the SAME FIELDS (year, month, day, hour, minute, second, nanoseconds, zone offset:
+    `PT.same`, what the harness compares on `time.Time`) and writes the same literal.
+    Excluded, and only these: `n.tzWide` (class time-tz-out-of-range), `n.fracDropped` (class
+    time-fraction-dropped: the fraction is in the value and not in the literal), and values whose stored
+    Layout has a ".000000000" element (reached only through class time-fraction-signed).
+    `_partial` w.r.t. `time_canonical_full` only in that the last exclusion is stated on the layout
+    (`noFrac v.layout`) instead of being derived from `n.clean` (that a clean parse never ends in a
+    ".000000000" layout is not proved). One-digit hours and comma fractions of value zero are covered. -/
+theorem time_canonical_fields_partial (T : TimeTy) (f : TimeFact) (hf : timeFactOK T f = true) (s : Bytes) (v : TVal)
+    (n : Notes) (h : mapTime f s = .ok (v, n)) (hw : n.tzWide = false) (hfd : n.fracDropped = false)
+    (hnf : noFrac v.layout = true) :
+    accepts T.dt (lexTime v) = true ∧
+    ∃ v' n', mapTime f (lexTime v) = .ok (v', n') ∧ v'.t.same v.t = true ∧ lexTime v' = lexTime v := by
+  obtain ⟨l, hl, st, hst, rfl, rfl⟩ := mapTime_inv hf h
+  obtain ⟨hp, hd⟩ := parseWith_inv (by simpa [timeParse] using hst)
+  have hinv := parseToks_inv _ _ _ _ hp inv_init
+  have hfr := parseToks_frame _ _ _ _ hp
+  have hF := fields_of_inv hinv hd
+  have hz := zoneOK_of_inv hinv hw
+  obtain ⟨v', n', hfp, hlex, hclean, hsame⟩ := canon_core2 T hl hnf hF hz hfr hfd
+  have hmap : mapTime f (timeFormat l st.t) = .ok (v', n') := mapTime_of_first hf (lexTime_noWs T hl st.t) hfp
+  exact ⟨time_sound_partial T f hf _ v' n' hmap hclean, v', n', hmap, hsame, hlex⟩
+
+example : run .dateTime (asc " 2000-02-29T7:05:09,000-05:00") = some (asc "2000-02-29T07:05:09-05:00", { hour1 := true, comma := true }) := by
+  decide
+
+end
+
+section
+open RdfModel.Proofs.C20Time
+
+theorem fp_cons {l : Bytes} {ls : List Bytes} {a : Bytes} {r : TVal × Notes} (h : firstParse (l :: ls) a = some r) :
+    (∃ st, timeParse l a = some st ∧ r = ({ t := st.t, layout := l }, st.n)) ∨
+    (timeParse l a = none ∧ firstParse ls a = some r) := by
+  simp only [firstParse] at h
+  split at h
+  · next st e => left; exact ⟨st, e, by simpa using h.symm⟩
+  · next e => right; exact ⟨e, h⟩
+
+/-- a parse that used neither the comma nor the signed-fraction branch never ends in a layout with a
+    ".000000000" element: the plain layout tried earlier accepts the same text (fraction rule) -/
+theorem clean_noFrac (T : TimeTy) (f : TimeFact) (hf : timeFactOK T f = true) (s : Bytes) (v : TVal) (n : Notes)
+    (h : mapTime f s = .ok (v, n)) (hc : n.comma = false) (hs : n.fsign = false) : noFrac v.layout = true := by
+  simp only [timeFactOK, Bool.and_eq_true, beq_iff_eq] at hf
+  obtain ⟨⟨⟨hcol, hlay⟩, _⟩, _⟩ := hf
+  simp only [mapTime, hcol, Xsd.argOf, if_true] at h
+  split at h
+  · simp at h
+  · split at h
+    · next r e =>
+      simp only [Except.ok.injEq] at h
+      subst h
+      rw [hlay] at e
+      generalize Xsd.whiteSpaceCollapse s = a at e
+      cases T <;> simp only [expLayouts] at e
+      · -- date
+        rcases fp_cons e with ⟨st, _, h⟩ | ⟨_, e⟩
+        · cases h; dsimp only; decide
+        rcases fp_cons e with ⟨st, _, h⟩ | ⟨_, e⟩
+        · cases h; dsimp only; decide
+        simp [firstParse] at e
+      · -- dateTime
+        rcases fp_cons e with ⟨st, _, h⟩ | ⟨n1, e⟩
+        · cases h; dsimp only; decide
+        rcases fp_cons e with ⟨st, _, h⟩ | ⟨n2, e⟩
+        · cases h; dsimp only; decide
+        rcases fp_cons e with ⟨st, h3, h⟩ | ⟨_, e⟩
+        · cases h
+          rw [timeParse, tk_dt3] at h3
+          obtain ⟨y, hy⟩ := gap_dateTime (tl := .none) h3 hc hs
+          rw [timeParse, tk_dt1] at n1
+          rw [toks_none] at hy; rw [hy] at n1; cases n1
+        rcases fp_cons e with ⟨st, h4, h⟩ | ⟨_, e⟩
+        · cases h
+          rw [timeParse, tk_dt4] at h4
+          obtain ⟨y, hy⟩ := gap_dateTime (tl := .tz) h4 hc hs
+          rw [timeParse, tk_dt2] at n2
+          rw [toks_tz] at hy; rw [hy] at n2; cases n2
+        simp [firstParse] at e
+      · -- dateTimeStamp
+        rcases fp_cons e with ⟨st, _, h⟩ | ⟨n1, e⟩
+        · cases h; dsimp only; decide
+        rcases fp_cons e with ⟨st, h4, h⟩ | ⟨_, e⟩
+        · cases h
+          rw [timeParse, tk_dt4] at h4
+          obtain ⟨y, hy⟩ := gap_dateTime (tl := .tz) h4 hc hs
+          rw [timeParse, tk_dt2] at n1
+          rw [toks_tz] at hy; rw [hy] at n1; cases n1
+        simp [firstParse] at e
+      · rcases fp_cons e with ⟨st, _, h⟩ | ⟨_, e⟩
+        · cases h; dsimp only; decide
+        rcases fp_cons e with ⟨st, _, h⟩ | ⟨_, e⟩
+        · cases h; dsimp only; decide
+        simp [firstParse] at e
+      · rcases fp_cons e with ⟨st, _, h⟩ | ⟨_, e⟩
+        · cases h; dsimp only; decide
+        rcases fp_cons e with ⟨st, _, h⟩ | ⟨_, e⟩
+        · cases h; dsimp only; decide
+        simp [firstParse] at e
+      · rcases fp_cons e with ⟨st, _, h⟩ | ⟨_, e⟩
+        · cases h; dsimp only; decide
+        rcases fp_cons e with ⟨st, _, h⟩ | ⟨_, e⟩
+        · cases h; dsimp only; decide
+        simp [firstParse] at e
+      · rcases fp_cons e with ⟨st, _, h⟩ | ⟨_, e⟩
+        · cases h; dsimp only; decide
+        rcases fp_cons e with ⟨st, _, h⟩ | ⟨_, e⟩
+        · cases h; dsimp only; decide
+        simp [firstParse] at e
+      · rcases fp_cons e with ⟨st, _, h⟩ | ⟨_, e⟩
+        · cases h; dsimp only; decide
+        rcases fp_cons e with ⟨st, _, h⟩ | ⟨_, e⟩
+        · cases h; dsimp only; decide
+        simp [firstParse] at e
+      · -- time
+        rcases fp_cons e with ⟨st, _, h⟩ | ⟨n1, e⟩
+        · cases h; dsimp only; decide
+        rcases fp_cons e with ⟨st, h2, h⟩ | ⟨_, e⟩
+        · cases h
+          rw [timeParse, tk_t2] at h2
+          obtain ⟨y, hy⟩ := gap_time (tl := .none) h2 hc hs
+          rw [timeParse, tk_t1] at n1
+          rw [toks_none] at hy; rw [hy] at n1; cases n1
+        rcases fp_cons e with ⟨st, _, h⟩ | ⟨n3, e⟩
+        · cases h; dsimp only; decide
+        rcases fp_cons e with ⟨st, h4, h⟩ | ⟨_, e⟩
+        · cases h
+          rw [timeParse, tk_t4] at h4
+          obtain ⟨y, hy⟩ := gap_time (tl := .z) h4 hc hs
+          rw [timeParse, tk_t3] at n3
+          rw [toks_z] at hy; rw [hy] at n3; cases n3
+        rcases fp_cons e with ⟨st, _, h⟩ | ⟨n5, e⟩
+        · cases h; dsimp only; decide
+        rcases fp_cons e with ⟨st, h6, h⟩ | ⟨_, e⟩
+        · cases h
+          rw [timeParse, tk_t6] at h6
+          obtain ⟨y, hy⟩ := gap_time (tl := .tz) h6 hc hs
+          rw [timeParse, tk_t5] at n5
+          rw [toks_tz] at hy; rw [hy] at n5; cases n5
+        simp [firstParse] at e
+    · simp at h
+
+/-- Canonicalisation clause of the property for the family, with the exclusions stated on the reading
+    notes only. For every T and every s that Map<T> accepts with value v, if the parse used none of
+    the four lax branches (`n.clean`: no one-digit hour, comma, signed fraction, wide zone) and no
+    non-zero fraction was dropped (`n.fracDropped = false`): the literal written is in the lexical space
+    of T, Map<T> accepts it, and the value obtained has the same fields (year … nanoseconds, zone offset)
+    and writes the same literal. -/
+theorem time_canonical (T : TimeTy) (f : TimeFact) (hf : timeFactOK T f = true) (s : Bytes) (v : TVal) (n : Notes)
+    (h : mapTime f s = .ok (v, n)) (hc : n.clean = true) (hfd : n.fracDropped = false) :
+    accepts T.dt (lexTime v) = true ∧
+    ∃ v' n', mapTime f (lexTime v) = .ok (v', n') ∧ v'.t.same v.t = true ∧ lexTime v' = lexTime v := by
+  have hc' : n.hour1 = false ∧ n.comma = false ∧ n.fsign = false ∧ n.tzWide = false := by
+    simpa [Notes.clean, and_assoc] using hc
+  exact time_canonical_fields_partial T f hf s v n h hc'.2.2.2 hfd (clean_noFrac T f hf s v n h hc'.2.1 hc'.2.2.1)
+
+end
+
 /-- the exclusion (b) of `time_canonical_partial` is needed: a value with a ".000000000" layout writes a
     literal that maps to a value writing a different literal -/
 theorem dev_signed_unstable :
@@ -548,15 +815,17 @@ theorem dev_signed_unstable :
 
 /-! ### not proved -/
 
-/-- Same-value part of the canonicalisation clause: outside the classes, re-mapping gives the same
-    FIELDS (not only the same text). NOT PROVED (needs "fields the layout does not print are at their
-    defaults" as a further invariant of the parse loop); checked on the Go code by the oracle of
-    go/cmd/c20t (aspect idempotent compares the fields) and by T3. -/
+/-- The canonicalisation clause for the current facts, as first stated in round 3. PROVED:
+    `time_canonical_full_holds` (from `time_canonical`). -/
 def time_canonical_full : Prop :=
   ∀ (T : TimeTy) (s : Bytes) (v : TVal) (n : Notes), mapTime (Gen.xsdFacts.time T) s = .ok (v, n) →
     n.clean = true → n.fracDropped = false →
     accepts T.dt (lexTime v) = true ∧
     ∃ v' n', mapTime (Gen.xsdFacts.time T) (lexTime v) = .ok (v', n') ∧ v'.t.same v.t = true ∧ lexTime v' = lexTime v
+
+/-- the statement kept as `def time_canonical_full` holds -/
+theorem time_canonical_full_holds : time_canonical_full :=
+  fun T s v n h hc hfd => time_canonical T _ (gen_time_facts T) s v n h hc hfd
 
 /-- Completeness on canonical forms within the code's year range: every string of the lexical space
     of T whose year (if any) is written with exactly four digits and no sign, and which is not the
